@@ -8,7 +8,7 @@ PROPERTY_UNITS = {
     'C01': ['u_plan', 'u_exp1', 'u_exp2', 'u_exp3', 'u_tok', 'u_fd', 'u_list'],
     'C13': ['u_plan', 'u_exp1', 'u_exp2', 'u_exp3'],
     'C12': ['u_exp1', 'u_exp2'],
-    'C10': ['u_exp2', 'u_env', 'u_script', 'u_list'],
+    'C10': ['u_exp2', 'u_env', 'u_script', 'u_list', 'u_tok'],
     'C11': ['u_exp3', 'u_exp2', 'u_blt', 'u_plan', 'u_args', 'u_fd', 'u_exp1', 'u_bfd', 'u_script', 'u_proc'],
     'C07': ['u_fd', 'u_proc', 'u_plan', 'u_jobs', 'u_wait', 'u_jcmd', 'u_sig'],
     'C15': ['u_args', 'u_script', 'u_list', 'u_env', 'u_bsh'],
